@@ -364,6 +364,8 @@ def elemRestr (C : Ctx) (rec : Rec) (self other : Particle) (co : Bool) : Except
             else do
               if !(← rec self e (!C.v11)) then loop es
               else
+                -- `total_occurs` is reset after every matching branch that fails the test below
+                -- (elements.py:1226): the range is computed from this branch alone
                 let tot := occMul (occAdd (0, some 0) e.lo e.hi) olo ohi
                 if hasOccursRestriction lo hi tot.1 tot.2 then pure true else loop es
         loop (iterModel other)
